@@ -160,7 +160,13 @@ def realtime_plan(prop, pools, floors):
     return plan
 
 
+ZONES = "nil,UTC,America/New_York,Asia/Kolkata,fixed+0545,Pacific/Auckland,fixed-0330"
+
 PLANS = {
+    "C02": realtime_plan("C02", [("RT_fields.cfg", "RT_fields.cfg", ZONES, 1),
+                                 (("RT_random.cfg", 1500), ("RT_random.cfg", 30000), ZONES, 1),
+                                 ("RT_merge_quick.cfg", "RT_merge_thorough.cfg", "nil,America/New_York", 4)],
+                         {"distinct_messages": 1500}),
     "C04": realtime_plan("C04", [("RT_merge_quick.cfg", "RT_merge_thorough.cfg", "nil", 4)], {"messages_with_2plus_entities": 400}),
     "C07": realtime_plan("C07", [("RT_merge_quick.cfg", "RT_merge_thorough.cfg", "nil", 4)], {"messages_with_2plus_entities": 400}),
     "C12": realtime_plan("C12", [("RT_alerts_quick.cfg", "RT_alerts_thorough.cfg", "nil", 1)], {"distinct_messages": 400}),
